@@ -103,6 +103,40 @@ claim('C16', 'DESIGN.md 4/C16',
       'SnapshotFaithful, SweepEqualsFresh; conformance binds each to the real objects.',
       'Two site types, two versions per item, <= 2 live PRISM objects, 3 (4) steps; solved results at 1e-5; unconverged solves skipped.')
 
+claim('C10', 'DESIGN.md 4/C10',
+      'TLA+ specs Term.tla/ClosureDefs.tla/ClosurePotential.tla: every potential as branch terms, the branch at every grid point decided '
+      'by TLC in integer arithmetic (half units of dr), sigma defaulting as the action Wire; TLC checks CoreIsContactInclusive, '
+      'LJZeroBeyondCut, LJShiftContinuous, WCAStatements, SigmaDefault, CalculatePure and reduces exact instances; the exported '
+      'potential-object graph replayed on the real classes for several grids/parameter sets/sigma styles (Wire through the real '
+      'createPRISM), every returned array compared point by point with the TLC-selected term',
+      'TLC decides for every potential-object state and grid point which documented branch applies (contact = core) and checks the '
+      'cut-off/shift/WCA statements on the definitions; conformance compares the real classes with it on every edge, all paths to '
+      'depth 3 and random walks, incl. exact rational instances and integer-dtype grids.',
+      'Bounded: 8 (12) grid points, listed sigma/cut/diameter values, 5 (9) concretisations; value of an unshifted LJ exactly at r_cut '
+      'not judged; trusted: TLC, harness/termeval.py (validated against TLC REval each run).')
+
+claim('C09', 'DESIGN.md 4/C09',
+      'TLA+ specs Term.tla/ClosureDefs.tla/ClosurePotential.tla: the four closure relations and the hard-core branch as terms; TLC '
+      'checks VanishAtZero, WeakCoupling (symbolic derivatives at the origin), CoreBranchValue, UnflaggedOnOverlap, ClosureBranches, '
+      'CalculatePure; the exported closure-object graph (classes and aliases x flag x sigma x potential family x gamma family) '
+      'replayed on the real closures with point-by-point comparison against the TLC-selected term, purity, elementwise and alias checks; '
+      'weak-coupling ratio test on the code',
+      'The relations are stated once in TLA+; TLC proves the limit statements on them symbolically and decides the branch per grid '
+      'point; the real closures must reproduce the selected term on every seeded gamma/potential array, bitwise on the core branch.',
+      'Bounded: 8 (12) grid points, 4 gamma x 3 potential families, 2 (5) grids; either published Martynov-Sarkisov form accepted; '
+      'grid points coinciding with sigma only up to float noise not judged here (C10).')
+
+claim('C03', 'DESIGN.md 4/C03',
+      'TLA+ spec HardCore.tla over ClosureDefs.tla: TLC enumerates every valid two-component configuration (closure x flag x potential '
+      'per pair, diameters, kT), decides which pairs have a hard core and their core extent, and checks that the composed term '
+      'potential -> closure reduces to -1 - gamma (CoreValueHoldsAll, float64 underflow assumption explicit); every Stride-th '
+      'configuration built as a real System and run through the real PRISM.cost with seeded trial vectors (closure.value == -1 - GammaIn '
+      'bitwise on core points) and a subset solved (|g| <= |fun|/r on core points)',
+      'Exhaustive over configurations at the specification level; sampled (deterministic stride) replay through the real cost function '
+      'with zero/small/large trial vectors on a dyadic and a non-dyadic grid, plus solved objects.',
+      'Two site types; densities, omegas and potential parameters seeded; unconverged solves skipped; MSA/MS unflagged on divergent '
+      'potentials excluded as documented.')
+
 ALL = ['C%02d' % i for i in range(1, 19)]
 
 
